@@ -343,10 +343,14 @@ namespace foonathan
                 if (auto remaining = std::size_t(block_end() - stack_.top()))
                 {
                     auto offset = detail::align_offset(stack_.top(), detail::max_alignment);
-                    if (offset < remaining)
+                    // only insert it if it is big enough for at least one node
+                    if (offset < remaining
+                        && pool.usable_size(remaining - offset) >= pool.node_size())
                     {
                         detail::debug_fill(stack_.top(), offset, debug_magic::alignment_memory);
                         pool.insert(stack_.top() + offset, remaining - offset);
+                        // the rest of the block belongs to the pool now
+                        stack_.bump(remaining);
                         return true;
                     }
                 }
